@@ -53,6 +53,7 @@ func checkC10(p *Program, r *Report) {
 	c10Missing(p, r, m)
 	c10WriteBack(p, r, m, sums)
 	c10Make(p, r, m, sums)
+	c10Applied(p, r, m, sums)
 }
 
 func c10Sinks(p *Program, r *Report, m *vmModel, sums *typeSummaries) {
@@ -933,4 +934,82 @@ func c10Make(p *Program, r *Report, m *vmModel, sums *typeSummaries) {
 		}
 	}
 	r.Floor("C10.R7", n, 2)
+}
+
+// c10Applied (R8): an operand that is evaluated and converted to an integer is applied: the integer reaches something other than
+// comparisons (an argument of a call, an index, a slice bound, an arithmetic result that does). "Validated but not applied" is
+// how a capacity, a bound or a count gets silently ignored.
+func c10Applied(p *Program, r *Report, m *vmModel, sums *typeSummaries) {
+	a := newAddrAnalysis(m, nil, sums)
+	n := 0
+	for _, fn := range m.fns {
+		if m.baseOf(fn) == nil || len(fn.Blocks) == 0 {
+			continue
+		}
+		k := 0
+		for _, b := range fn.Blocks {
+			for _, in := range b.Instrs {
+				var intVal ssa.Value
+				var site ssa.Instruction
+				switch x := in.(type) {
+				case *ssa.Extract:
+					if c, ok := x.Tuple.(*ssa.Call); ok && x.Index == 0 && a.isIntConverter(staticCallee(c)) {
+						intVal, site = x, c
+					}
+				case *ssa.Call:
+					if callee := staticCallee(x); callee != nil && callee.Pkg == m.sp && len(x.Call.Args) == 1 && isReflectValue(x.Call.Args[0].Type()) && callee.Signature.Results().Len() == 1 {
+						if bt, ok := callee.Signature.Results().At(0).Type().(*types.Basic); ok && bt.Kind() == types.Int {
+							intVal, site = x, x
+						}
+					}
+				}
+				if intVal == nil {
+					continue
+				}
+				n++
+				k++
+				applied := false
+				seen := map[ssa.Value]bool{}
+				var walk func(v ssa.Value, depth int)
+				walk = func(v ssa.Value, depth int) {
+					if seen[v] || depth > 8 || applied {
+						return
+					}
+					seen[v] = true
+					for _, ref := range *v.Referrers() {
+						switch y := ref.(type) {
+						case *ssa.BinOp:
+							switch y.Op {
+							case token.EQL, token.NEQ, token.LSS, token.LEQ, token.GTR, token.GEQ:
+								// a comparison: validation only
+							default:
+								walk(y, depth+1)
+							}
+						case *ssa.Phi:
+							walk(y, depth+1)
+						case *ssa.Convert:
+							walk(y, depth+1)
+						case *ssa.Store:
+							if al, ok := y.Addr.(*ssa.Alloc); ok && y.Val == v {
+								for _, r2 := range *al.Referrers() {
+									if u, ok := r2.(*ssa.UnOp); ok {
+										walk(u, depth+1)
+									}
+								}
+							} else if y.Val == v {
+								applied = true
+							}
+						case *ssa.DebugRef, *ssa.If:
+						default:
+							applied = true // call argument, index, slice bound, return value, ...
+						}
+					}
+				}
+				walk(intVal, 0)
+				r.Check(applied, "C10.R8", fmt.Sprintf("%s|integer operand #%d is applied", funcName(fn), k), p.Pos(instrPos(site)), "the converted operand reaches an operation on the container",
+					"an operand is evaluated, converted to an integer and compared with limits, but the integer is never handed to any operation: the operand has no effect on the result")
+			}
+		}
+	}
+	r.Floor("C10.R8", n, 10)
 }
